@@ -138,7 +138,7 @@ theorem swLoop_good (adj : List Link) (t : List TEdge) (conns : Conns) :
 
 /-- POST-CONDITION of `_update_tree()`, from ANY previous `_prev`. -/
 theorem updateTree_post (adj : List Link) (order : List Nat) (conns : Conns) (pv pv' : Prev) (mods : List PortMod)
-    (t : List TEdge) (ht : calcTree adj order = .ok t) (h : updateTree adj order conns pv = .ok (pv', mods)) :
+    (t : List TEdge) (ht : calcTreeL adj order = .ok t) (h : updateTree adj order conns pv = .ok (pv', mods)) :
     ∀ sw ∈ treeKeys t, Good adj t conns pv' sw := by
   unfold updateTree at h
   rw [ht] at h
@@ -149,7 +149,7 @@ theorem updateTree_post (adj : List Link) (order : List Nat) (conns : Conns) (pv
   exact this
 
 theorem updateTree_ok (adj : List Link) (order : List Nat) (conns : Conns) (pv : Prev) (t : List TEdge)
-    (ht : calcTree adj order = .ok t) : ∃ pv' mods, updateTree adj order conns pv = .ok (pv', mods) := by
+    (ht : calcTreeL adj order = .ok t) : ∃ pv' mods, updateTree adj order conns pv = .ok (pv', mods) := by
   unfold updateTree; rw [ht]; exact ⟨_, _, rfl⟩
 
 end Pox.STree
